@@ -4,15 +4,19 @@ from . import core
 from .core import Run, WORK, ROOT
 
 SPEC, CFG = "Trace_Tree.tla", "Trace_Tree.cfg"
+E2E = [("Trace_Parse.tla", "Trace_Parse.cfg")]      # second judge: the composed L0 parser run on the raw input
 TABLES = os.path.join(ROOT, "gen", "c02_tables.json")
 
-RULE = ("L0 = HtmlTreeBuilder/HtmlTreeRules, a TLA+ transcription of WHATWG 13.2.6 (every insertion mode, foreign content, "
+RULE = ("Two judges.  (1) Trace_Tree: L0 = HtmlTreeBuilder/HtmlTreeRules, a TLA+ transcription of WHATWG 13.2.6 (every insertion mode, foreign content, "
         "dispatcher, adoption agency with its 8/3 limits, reconstruction with Noah's ark, foster parenting, template mode "
         "stack, reset of the insertion mode, scopes, fragment set-up, quirks decision).  The real tree builder (behind the "
         "real tokenizer, monitoring sink around RcDom) parses each case; the tokens it received, its tokenizer-state "
         "replies, its answers to the CDATA question, RcDom's final tree with each element's duplicate-attribute flag, and "
         "the quirks mode reported to the sink are recorded.  TLC runs L0 over the same tokens and requires identity of "
-        "tree, quirks mode, per-token tokenizer-state switch, CDATA answers and fragment start state.")
+        "tree, quirks mode, per-token tokenizer-state switch, CDATA answers and fragment start state.  (2) Trace_Parse: the "
+        "composed L0 parser (HtmlParser: preprocessing, L0 tokenizer, L0 tree construction, both feedback edges) is run on "
+        "the raw input text and must yield the same tree and quirks mode.  MC_TreeBuilder / MC_HtmlParser model-check the "
+        "structural invariants and export every explored token sequence / input text for replay on the real code.")
 
 
 def count_cases(path):
@@ -30,7 +34,7 @@ def run(tier, seed, replay=None):
         src = os.path.join(WORK, "traces", "C02-replay-in.ndjson")
         with open(src, "w") as f:
             f.write("\n".join(lines) + "\n")
-        r.gen_validate("replay", ["parse", "--replay", "--c02"], SPEC, CFG, 1, classify, count_cases, stdin_files=[src])
+        r.gen_validate("replay", ["parse", "--replay", "--c02"], SPEC, CFG, 1, classify, count_cases, stdin_files=[src], also=E2E)
         return r.finish(RULE, write=False)
     # model checking of L0 itself (structural invariants, C06 skeleton at EOF) over token vocabularies; every explored
     # token sequence is then fed token by token to the real tree builder and judged like the recorded parses
@@ -42,15 +46,35 @@ def run(tier, seed, replay=None):
         return name, cases, core.tlc_mc("C02-MC_TreeBuilder_" + name, "MC_TreeBuilder.tla", cfg, workers=4 if q else 8,
                                         timeout=7000, xmx="6g" if q else "12g", replay_out=cases)
     results = core.parallel([(one_mc, (n,), {}) for n in mcs], max_workers=4 if q else 2)
-    nrep = 0
-    for (name, cases, res) in results:
-        r.add_mc("MC_TreeBuilder_" + name, res)
-        if res["ok"] and res["replays"]:
-            parts, n = core.split_file(cases, N)
-            nrep += n
-            r.gen_validate("mc-explored-" + name, ["parse", "--replay", "--c02"], SPEC, CFG, len(parts), classify, count_cases,
-                           stdin_files=parts, timeout=7000, xmx="4g")
+    allcases = os.path.join(WORK, "traces", "C02-MC_TreeBuilder-all-cases.ndjson")
+    with open(allcases, "w") as w:
+        for (name, cases, res) in results:
+            r.add_mc("MC_TreeBuilder_" + name, res)
+            if res["ok"] and res["replays"]:
+                with open(cases) as f:
+                    w.write(f.read())
+    parts, nrep = core.split_file(allcases, N)
+    r.gen_validate("mc-explored-token-sequences", ["parse", "--replay", "--c02"], SPEC, CFG, len(parts), classify, count_cases,
+                   stdin_files=parts, timeout=7000, xmx="4g")
     r.extra["mc_token_sequences_replayed"] = nrep
+    # model checking of the composed L0 parser over input texts; every explored text is parsed by the real parser
+
+    def one_text_mc(suffix):
+        name = "MC_HtmlParser" + suffix
+        cases = os.path.join(WORK, "traces", "C02-%s-cases.ndjson" % name)
+        return name, cases, core.tlc_mc("C02-" + name, "MC_HtmlParser.tla", name + ("" if q else "_thorough") + ".cfg", workers=5, timeout=7000,
+                                        xmx="8g", replay_out=cases)
+    alltexts = os.path.join(WORK, "traces", "C02-MC_HtmlParser-all-cases.ndjson")
+    with open(alltexts, "w") as w:
+        for (name, cases, res) in core.parallel([(one_text_mc, (sfx,), {}) for sfx in ("", "_b", "_c")], max_workers=3):
+            r.add_mc(name, res)
+            if res["ok"] and res["replays"]:
+                with open(cases) as f:
+                    w.write(f.read())
+    parts, ntext = core.split_file(alltexts, N)
+    r.gen_validate("mc-explored-texts", ["parse", "--replay", "--c02"], SPEC, CFG, len(parts), classify, count_cases,
+                   stdin_files=parts, timeout=7000, xmx="4g", also=E2E)
+    r.extra["mc_texts_replayed"] = ntext
     P = ["parse", "--c02"]
     plans = [
         # every pair of vocabulary pieces of every family, as a document and under all 34 fragment contexts
@@ -64,11 +88,13 @@ def run(tier, seed, replay=None):
         ("ark-deep", P + ["--mode", "enum", "--family", "ark", "--k", 5 if q else 6, "--pieces", 7 if q else 9], N),
         ("lf-k3", P + ["--mode", "enum", "--family", "lf", "--k", 3 if q else 4, "--pieces", 19], N),
         ("selectedcontent", P + ["--mode", "selectedcontent", "--k", 3 if q else 4], N),
-        ("random", P + ["--mode", "random", "--n", 20000 if q else 400000, "--maxpieces", 14], N),
+        ("random", P + ["--mode", "random", "--n", 10000 if q else 400000, "--maxpieces", 14], N),
         ("random-long-chunked", P + ["--mode", "random", "--n", 250 if q else 6000, "--maxpieces", 40, "--chunk", "some"], N),
     ]
+    # plans judged end to end as well (raw input -> L0 parser), not only from the recorded tokens
+    e2e = {"tables", "lf-k3", "random", "random-long-chunked"} | (set() if q else {"triples", "pairs", "aaa-deep", "ark-deep"})
     for (label, args, shards) in plans:
-        r.gen_validate(label, args, SPEC, CFG, shards, classify, count_cases, timeout=7000, xmx="4g")
+        r.gen_validate(label, args, SPEC, CFG, shards, classify, count_cases, timeout=7000, xmx="4g", also=E2E if label in e2e else ())
     r.assumptions = [
         "the input of L0 is the token stream the tree builder actually received (the tokenizer is judged against its own L0 "
         "in C01; its state switches requested by the tree builder are judged here per token)",
